@@ -33,4 +33,5 @@ def check(ctx):
     # the text round trip itself is C12; its one structural clause that C11 depends on: no value is refused by the decoder
     from .. import codec, scopes
     scopes.rule_scope_always_opened(ctx, facts, "R6")
+    scopes.rule_span_lines_innermost_only(ctx, facts, "R7")
     codec.rule_values_not_tested(ctx, facts, "R5")
